@@ -72,6 +72,29 @@ theorem c18_style_src (f : Final) (ch : List Nat)
   refine ⟨?_, ?_, ?_, ?_, ?_, fun p hp => (lineIdx_style f ch p hp).2⟩ <;>
     simp only [Final.style] <;> rw [propIdx_refines f ch _ (by simp) (hrem _ (by simp [PROPS]))]
 
+/-- **default style values** (translated calls of `__init__`): marker and line style cycle through the default tables,
+marker size and line width are `np.linspace(a, b, N)` with the end points of the source, `N` the number of surviving
+coordinates — which is what the model's style uses; and the properties are initialised in the model's order -/
+theorem c18_style_defaults_src (f : Final) (ch : List Nat) :
+    Gen.infInitCalls.map (·.1) = PROPS ∧
+    defaultOf "marker" = some (.cycle "_MARKERS_DEFAULT") ∧ defaultOf "linestyle" = some (.cycle "_LINESTYLES_DEFAULT") ∧
+    (∀ a b, defaultOf "markersize" = some (.linspace a b) →
+      (f.style ch).markersize = (f.propIdx "markersize" ch).map (linspace a b (f.propSize "markersize"))) ∧
+    (∀ a b, defaultOf "linewidth" = some (.linspace a b) →
+      (f.style ch).linewidth = (f.propIdx "linewidth" ch).map (linspace a b (f.propSize "linewidth"))) := by
+  obtain ⟨h1, h2, h3, h4⟩ := styleDefaults_refines
+  refine ⟨initOrder_refines, h1, h2, ?_, ?_⟩
+  · intro a b h
+    rw [h3] at h
+    injection h with h; injection h with ha hb
+    subst ha; subst hb
+    simp [Final.style]
+  · intro a b h
+    rw [h4] at h
+    injection h with h; injection h with ha hb
+    subst ha; subst hb
+    simp [Final.style]
+
 /-- **histogram** (translated call): what the source's `np.histogram(x, bins=self.bins, density=self.bins_density)[0]`
 yields for the finite values of a slice is the model's `histY`, whose counts and normalisation are `c18_hist_counts` /
 `c18_hist_total`: the divisor of a density is the number of values COUNTED (those inside the bin range) times the width -/
@@ -107,6 +130,9 @@ example : ∀ p ∈ PROPS, ((finalOf exDS exReq).propPos p).isSome = ((finalOf e
 
 example : idxOf (Gen.infLineIdx (finalOf exDS exReq).remNames (finalOf exDS exReq).attr [1]).vals "marker" = some 1 ∧
     ((finalOf exDS exReq).style [1]).marker = some 1 := by decide
+
+example : defaultOf "markersize" = some (.linspace 3 9) := by
+  simp only [defaultOf, Gen.infInitCalls, Gen.Default.infInitCalls]; decide
 
 example : histOf Gen.infHistCall false [0, 1, 2] [0, 1 / 2, 1, 2, 3] = [.count 2, .count 2] := by decide +kernel
 
